@@ -3,9 +3,11 @@ package main
 import (
 	"fmt"
 	"math/rand"
+	"runtime"
 	"sort"
 	"strconv"
 	"strings"
+	"sync"
 
 	mqtt "github.com/mochi-mqtt/server/v2"
 	"github.com/mochi-mqtt/server/v2/packets"
@@ -127,6 +129,39 @@ func init() {
 		return strings.Join(xs, ";")
 	}
 
+	// t.conc <thread>|<thread>|... : each thread = ops joined by ",", an op = name and args joined by ":".
+	// The threads run on separate goroutines against the real index; output = per-thread return values
+	// and the final dump. The Lean driver searches the serialisation (consistent with each thread's
+	// program order) that explains them (C31).
+	runners["t.conc"] = func(st *state, a []string) string {
+		x := topicsIdx(st)
+		threads := strings.Split(a[0], "|")
+		res := make([][]string, len(threads))
+		var wg sync.WaitGroup
+		start := make(chan struct{})
+		for i, th := range threads {
+			ops := strings.Split(th, ",")
+			res[i] = make([]string, len(ops))
+			wg.Add(1)
+			go func(i int, ops []string) {
+				defer wg.Done()
+				<-start
+				for j, op := range ops {
+					f := strings.Split(op, ":")
+					res[i][j] = safeRun(runners["t."+f[0]], st, f[1:])
+					runtime.Gosched()
+				}
+			}(i, ops)
+		}
+		close(start)
+		wg.Wait()
+		var rs []string
+		for _, r := range res {
+			rs = append(rs, strings.Join(r, ","))
+		}
+		return strings.Join(rs, "|") + " D " + x.VerifTrieDump()
+	}
+
 	lv := []string{"a", "b", "", "a", "b", "c"}
 	genTopic := func(r *rand.Rand) string {
 		n := 1 + r.Intn(4)
@@ -139,6 +174,9 @@ func init() {
 			ls[0] = "$x"
 		case 1:
 			ls[0] = "$SYS"
+		}
+		if n > 1 && r.Intn(6) == 0 { // a `$` level below the first one is an ordinary level
+			ls[1+r.Intn(n-1)] = "$y"
 		}
 		t := strings.Join(ls, "/")
 		if t == "" {
@@ -169,6 +207,9 @@ func init() {
 			if n < 4 {
 				ls = append(ls, "#")
 			}
+		}
+		if n > 1 && r.Intn(10) == 0 {
+			ls[1+r.Intn(n-1)] = "$y"
 		}
 		f := strings.Join(ls, "/")
 		if f == "" {
@@ -243,6 +284,69 @@ func init() {
 			for _, f := range filters {
 				emit("t.msgs " + hs(f))
 			}
+		}
+	}}
+	// concurrent batches on the real index (C31): 2-4 goroutines, few enough ops that every serialisation
+	// consistent with program order can be enumerated (<= 1680)
+	suites["topicsconc"] = suite{gen: func(r *rand.Rand, n int, emit func(string)) {
+		clients := []string{"c1", "c2"}
+		multinomial := func(ks []int) int {
+			tot, m := 0, 1
+			for _, k := range ks {
+				for j := 1; j <= k; j++ {
+					tot++
+					m = m * tot / j
+				}
+			}
+			return m
+		}
+		for done := 0; done < n; {
+			emit("reset")
+			filters := []string{genFilter(r, true), genFilter(r, true), genFilter(r, false)}
+			topics := []string{genTopic(r), genTopic(r)}
+			genOp := func() string {
+				switch k := r.Intn(10); {
+				case k < 3:
+					return fmt.Sprintf("sub:%s:%s:%d:0:0:0:%d", hs(pick(r, clients)), hs(pick(r, filters)), r.Intn(3), r.Intn(3))
+				case k < 6:
+					return fmt.Sprintf("unsub:%s:%s", hs(pick(r, filters)), hs(pick(r, clients)))
+				case k < 7:
+					return fmt.Sprintf("isub:%d:%s", 1+r.Intn(2), hs(filters[2]))
+				case k < 8:
+					return fmt.Sprintf("iunsub:%d:%s", 1+r.Intn(2), hs(filters[2]))
+				default:
+					p := "p" + strconv.Itoa(r.Intn(2))
+					if r.Intn(3) == 0 {
+						p = ""
+					}
+					return fmt.Sprintf("retain:%s:%s:1", hs(pick(r, topics)), hs(p))
+				}
+			}
+			for b := 0; b < 3+r.Intn(4); b++ {
+				var ks []int
+				for {
+					ks = ks[:0]
+					for g := 0; g < 2+r.Intn(3); g++ {
+						ks = append(ks, 1+r.Intn(4))
+					}
+					if multinomial(ks) <= 1680 {
+						break
+					}
+				}
+				var ths []string
+				for _, k := range ks {
+					var ops []string
+					for j := 0; j < k; j++ {
+						ops = append(ops, genOp())
+						done++
+					}
+					ths = append(ths, strings.Join(ops, ","))
+				}
+				emit("t.conc " + strings.Join(ths, "|"))
+				emit("t.subs " + hs(pick(r, topics)))
+				emit("t.msgs " + hs(pick(r, filters)))
+			}
+			emit("t.dump")
 		}
 	}}
 	// filter validation: exhaustive over token strings of bounded length + random
